@@ -20,6 +20,14 @@ func VH_C15_unlock(h *vrt.H) {
 	st := vhBuild(h, k, ctx, n, 1, ws)
 	now := time.Unix(int64(h.U32("now")), int64(h.U32("nowNanos")%1_000_000_000)).UTC()
 	ctx = ctx.WithBlockTime(now)
+	// the two delays and the jail time are whatever the module's own validity rule admits
+	p := vhParams()
+	p.MaxValidators = st.K
+	p.UnlockDuration = time.Duration(h.U64("unlockDuration") >> 8)
+	p.ExitingDuration = time.Duration(h.U64("exitingDuration") >> 8)
+	p.DowntimeJailDuration = time.Duration(h.U64("jailDuration") >> 8)
+	h.Assume(p.Validate() == nil)
+	vhMust(k.Params.Set(ctx, p))
 	target := h.Choose("target", 0, n-1)
 	pre := vhSnapshot(h, k, ctx, st)
 	amt := h.Big("amount", "0", vhBig)
@@ -31,7 +39,6 @@ func VH_C15_unlock(h *vrt.H) {
 		h.Reach("refused")
 		return
 	}
-	p := vhParams()
 	a := pre.Val[target]
 	held := a.Locking.AmountOf("btc")
 	released := math.MinInt(held, math.NewIntFromBigInt(amt))
@@ -61,7 +68,7 @@ func VH_C15_unlock(h *vrt.H) {
 		h.Assert(b.Status == a.Status, "partial-unlock-keeps-status")
 		h.Reach("partial")
 	}
-	h.Assert(p.ExitingDuration >= p.UnlockDuration, "params-exit-delay-not-shorter")
+	h.Assert(p.ExitingDuration >= p.UnlockDuration, "an-exit-never-matures-before-an-ordinary-unlock-of-the-same-block")
 	vhCheckInvL(h, k, ctx, st)
 }
 
